@@ -27,7 +27,9 @@ def judge (_args : List String) (obs : List String) : Bool :=
   match field obs "alone", field obs "hist", field obs "last", field obs "keys" with
   | some a, some h, some l, some ks =>
     a == h && !(a.splitOn "PANIC").length > 1 && keysOK ks &&
-    (l == "-" || some l == (a.splitOn "/").getLast?)
+    (l == "-" || some l == (a.splitOn "/").getLast?) &&
+    -- the same case on the harness built with -tags coraza.no_memoize (when the run provides it)
+    (match field obs "nomemo" with | some v => v == "same" | none => true)
   | _, _, _, _ => false
 
 end Driver.Memo
